@@ -385,7 +385,7 @@ def index_table(R, ctx):
                 return v == '$o_index_for_rcurrent.0'
             if base == '0':
                 return v == '0'
-            return bool(re.match(r'^\$\(1\+[\w:]*get_highest_index#1\(&config\.file_spec\)\.0\)$', v))
+            return bool(re.match(r'^\$\(1\+[\w:]*get_highest_index#1\.0\)$', v))
 
         def is_base_plus_1(v):
             if v is None:
@@ -394,7 +394,7 @@ def index_table(R, ctx):
                 return v == '$(1+o_index_for_rcurrent.0)'
             if base == '0':
                 return v == '1'
-            return bool(re.match(r'^\$\(2\+[\w:]*get_highest_index#1\(&config\.file_spec\)\.0\)$', v))
+            return bool(re.match(r'^\$\(2\+[\w:]*get_highest_index#1\.0\)$', v))
         names = [e[0].split('::')[-1] for e in r.effects]
         if rot is False:
             ok = is_base(val) and 'rename' not in names
@@ -413,8 +413,9 @@ def index_table(R, ctx):
         # rename operands
         if 'rename' in names:
             e = r.effects[names.index('rename')]
-            src_ok = "as_pathbuf" in e[1][0] and "'rCURRENT'" in e[1][0]
-            dst_ok = "as_pathbuf" in e[1][1] and "number_infix" in e[1][1] and "'rCURRENT'" not in e[1][1]
+            a0, a1 = r.long(e[1][0]), r.long(e[1][1])
+            src_ok = "as_pathbuf" in a0 and "'rCURRENT'" in a0
+            dst_ok = "as_pathbuf" in a1 and "number_infix" in a1 and "'rCURRENT'" not in a1
             if not (src_ok and dst_ok):
                 ok, exp = False, "rename(current file -> file with the number infix of the index)"
         R.check('R01.5', key, ok, exp, f"index_for_rcurrent [{given=}, highest={hi}, rotate={rot}, rename={ren}, notfound={nf}] returns {short(repr(res))}; documented: {exp}",
@@ -436,7 +437,7 @@ def collision_rules(R, ctx):
             continue
         for e in r.effects:
             if e[0].endswith('open_log_file'):
-                infix = e[1][1]
+                infix = r.long(e[1][1])
                 if not re.search(r'collision_free_infix_for_rotated_file#\d+\(&self\.config\.file_spec,&[\w:]*infix_from_timestamp#\d+\(&chrono::Local::now#', infix):
                     bad = f"direct timestamp rotation opens {short(infix)} without the collision check"
                 n += 1
@@ -447,7 +448,7 @@ def collision_rules(R, ctx):
     I = FDI(f, effects=EFF, no_inline=EFF)
     rws = I.run(pb.path)
     ok = len(rws) == 1 and not rws[0].undecided and re.search(
-        r'as_pathbuf#3\(&file_spec,Option::Some\(&[\w:]*collision_free_infix_for_rotated_file#2\(&file_spec,&[\w:]*infix_from_timestamp#1\(&timestamp_for_rotated_file,use_utc,&fmt\)\)\)\)', repr(rws[0].result).replace(' ', ''))
+        r'as_pathbuf#3\(&file_spec,Option::Some\(&[\w:]*collision_free_infix_for_rotated_file#2\(&file_spec,&[\w:]*infix_from_timestamp#1\(&timestamp_for_rotated_file,use_utc,&fmt\)\)\)\)', rws[0].long(repr(rws[0].result)).replace(' ', ''))
     R.check('R01.6', f"{pb.path}|rotated-name", bool(ok), "rotated name = as_pathbuf(collision_free(infix_from_timestamp(ts)))",
             f"the name of the rotated file is not collision-checked: {short(repr(rws[0].result) if rws else '?', 200)}", where=pb.loc())
     # initialisation: infix opened with truncate (append = false) must be collision-checked for the direct timestamp namings
@@ -461,7 +462,7 @@ def collision_rules(R, ctx):
             continue
         for e in r.effects:
             if e[0].endswith('open_log_file'):
-                infix = e[1][1]
+                infix = r.long(e[1][1])
                 checked = 'collision_free_infix_for_rotated_file' in infix
                 append = r.get('self.config.append')
                 per.setdefault((nm, checked, append), 0)
